@@ -429,3 +429,36 @@ Example C14_scope_read_option_marked_finding :
     read_opts C14_ro_ex.mfs C14_ro_ex.mroot false false true [SStr (of_string "INCLUDE1")] 0 = Some (Ok (s', k)) /\
     sd_data s' = [(KS (of_string "a"), Leaf (SInt 1))].
 Proof. eexists; eexists; eexists. vm_compute. repeat split; reflexivity. Qed.
+
+(* ================================================================================================== *)
+(* non-vacuity examples added after the reviewer's audit (Properties/C14_nv.v, 2026-10-01)         *)
+(* ================================================================================================== *)
+
+(* ==== non-vacuity instance obtained BY APPLYING the theorem above (added after review) ================== *)
+
+(* C14_exists, both directions, on a tree with a dict three keys deep under a string key, an INT key and a string key, a
+   dict inside a list and a leaf: (1) from the computed test to the sub-dict, (2) from the computed sub-dict to the test,
+   (3) a path to a leaf and a path through a list: the test is false, so no dict is found there *)
+Example C14_exists_nonvacuous :
+  let kvs0 := [(C14_ex.ka, Dict [(KI 3, Dict [(C14_ex.kc, Dict [(C14_ex.kd, Leaf (SInt 1))]); (C14_ex.kb, Leaf (SBool true))]);
+                                 (C14_ex.kb, Lst [Dict [(C14_ex.kc, Leaf SNone)]])]);
+               (C14_ex.kd, Dict [])] in
+  let p := [C14_ex.ka; KI 3; C14_ex.kc] in
+  (key_exists (Dict kvs0) p = true /\ exists kvs, get_dpath (Dict kvs0) p = Some (Dict kvs)) /\
+  (get_dpath (Dict kvs0) [C14_ex.ka; KI 3] = Some (Dict [(C14_ex.kc, Dict [(C14_ex.kd, Leaf (SInt 1))]); (C14_ex.kb, Leaf (SBool true))]) /\
+   key_exists (Dict kvs0) [C14_ex.ka; KI 3] = true) /\
+  (key_exists (Dict kvs0) [C14_ex.ka; KI 3; C14_ex.kb] = false /\
+   ~ exists kvs, get_dpath (Dict kvs0) [C14_ex.ka; KI 3; C14_ex.kb] = Some (Dict kvs)) /\
+  (key_exists (Dict kvs0) [C14_ex.ka; C14_ex.kb; KI 0] = false /\
+   ~ exists kvs, get_dpath (Dict kvs0) [C14_ex.ka; C14_ex.kb; KI 0] = Some (Dict kvs)).
+Proof.
+  intros kvs0 p.
+  assert (H1 : key_exists (Dict kvs0) p = true) by (vm_compute; reflexivity).
+  assert (H2 : get_dpath (Dict kvs0) [C14_ex.ka; KI 3] =
+               Some (Dict [(C14_ex.kc, Dict [(C14_ex.kd, Leaf (SInt 1))]); (C14_ex.kb, Leaf (SBool true))])) by (vm_compute; reflexivity).
+  assert (H3 : key_exists (Dict kvs0) [C14_ex.ka; KI 3; C14_ex.kb] = false) by (vm_compute; reflexivity).
+  assert (H4 : key_exists (Dict kvs0) [C14_ex.ka; C14_ex.kb; KI 0] = false) by (vm_compute; reflexivity).
+  refine (conj (conj H1 (proj1 (C14_exists kvs0 p) H1)) (conj (conj H2 (proj2 (C14_exists kvs0 _) (ex_intro _ _ H2))) (conj (conj H3 _) (conj H4 _)))).
+  - intro E. apply (proj2 (C14_exists kvs0 _)) in E. rewrite H3 in E. discriminate E.
+  - intro E. apply (proj2 (C14_exists kvs0 _)) in E. rewrite H4 in E. discriminate E.
+Qed.
